@@ -126,7 +126,9 @@ let () =
                   last_op := ("B", "", rhs);
                   (match do_step OAddBad with
                    | BAdd r -> let m = (match r with RFlush -> "flush" | _ -> "other") in
-                       if rhs <> m && rhs <> "other" then mismatch "add-unreadable" rhs m
+                       (* a refusal is a refusal, whichever test of the collector the unreadable input failed first; what
+                          must agree is that it was refused and whether a flush was attempted and failed *)
+                       if rhs = "ok" || ((rhs = "flush") <> (m = "flush")) then mismatch "add-unreadable" rhs m
                    | _ -> ())
               | ("R" | "r"), [] ->
                   last_r := rhs;
